@@ -104,7 +104,7 @@ def run(tier):
                           "rcode": rcode})
                 items.append({"msg": m})
     # random messages, small to large
-    for i in range(800 if tier == "quick" else 20000):
+    for i in range(800 if tier == "quick" else 10000):
         items.append({"msg": gen.wire_msg(r_, maxrr=r_.choice([0, 1, 3, 8, 20]), rawmax=r_.choice([5, 40, 300, 2000]))})
     for m in big_messages(r_, 12 if tier == "quick" else 150):
         items.append({"msg": m})
